@@ -2,6 +2,7 @@
 mod common;
 mod c20;
 mod c07;
+mod c12;
 mod c11;
 mod c04;
 mod c03;
@@ -42,6 +43,7 @@ fn main() {
   let (generate, exec): (fn(u64, bool, &mut Sink) -> Vec<String>, fn(&str) -> String) = match prop {
     "C20" => (c20::generate, c20::exec),
     "C07" => (c07::generate, c07::exec),
+    "C12" => (c12::generate, c12::exec),
     "C11" => (c11::generate, c11::exec),
     "C04" => (c04::generate, c04::exec),
     "C03" => (c03::generate, c03::exec),
